@@ -202,4 +202,189 @@ theorem stream_last_swallows (sid off : Nat) (isFin : Bool) (d rest : List Nat)
   · cases isFin <;>
       simp [encodeFrame, streamTag, ho, decodeFrame, decStream, decVar_enc, h1, h2]
 
+theorem frame_roundtrip_ack (delay : Nat) (ranges : List (Nat × Nat)) (ecn : Option (Nat × Nat × Nat))
+    (rest : List Nat) (h : WF (.ack delay ranges ecn)) :
+    decodeFrame (encodeFrame (.ack delay ranges ecn) ++ rest) = .ok (.ack delay ranges ecn, rest) := by
+  simp only [WF] at h
+  obtain ⟨hd, hr, he⟩ := h
+  match ranges, hr with
+  | (s, e) :: rs, hr =>
+    simp only [AckRangesWF] at hr
+    obtain ⟨hse, hve, hb, hlen⟩ := hr
+    have hc : V rs.length := by unfold V; omega
+    have key : ∀ tail, decAckRanges e (encVar rs.length ++ (encVar (e - s) ++ (encAckTail s rs ++ tail)))
+        = .ok ((s, e) :: rs, tail) := by
+      intro tail
+      unfold decAckRanges
+      rw [decVar_enc _ _ hc]
+      simp only []
+      rw [if_neg (by omega), ackIter_enc rs s e tail hse hve hb]
+    match ecn, he with
+    | none, _ =>
+      simp only [encodeFrame, encAck, Option.isSome_none, List.append_assoc, List.cons_append,
+        List.nil_append]
+      simp [decodeFrame, decAck, decVar_enc, hve, hd, key]
+    | some (a, b, c), he =>
+      simp only [OptAll] at he
+      obtain ⟨ha, hb', hc'⟩ := he
+      simp only [encodeFrame, encAck, Option.isSome_some, List.append_assoc, List.cons_append,
+        List.nil_append]
+      simp [decodeFrame, decAck, decEcn, decVar_enc, hve, hd, key, ha, hb', hc']
+
+/-- everything an encoder emits decodes back to the same value (all 23 frame types) -/
+theorem frame_roundtrip (f : Frame) (rest : List Nat) (h : WF f) (hr : RestOk f rest) :
+    decodeFrame (encodeFrame f ++ rest) = .ok (f, rest) := by
+  cases f with
+  | padding n => exact frame_roundtrip_padding n rest h hr
+  | ping => exact frame_roundtrip_ping rest
+  | ack d rs e => exact frame_roundtrip_ack d rs e rest h
+  | resetStream a b c => exact frame_roundtrip_resetStream a b c rest h
+  | stopSending a b => exact frame_roundtrip_stopSending a b rest h
+  | crypto o d => exact frame_roundtrip_crypto o d rest h
+  | newToken t => exact frame_roundtrip_newToken t rest h
+  | stream s o l f d => exact frame_roundtrip_stream s o l f d rest h hr
+  | maxData v => exact frame_roundtrip_maxData v rest h
+  | maxStreamData a b => exact frame_roundtrip_maxStreamData a b rest h
+  | maxStreams b v => exact frame_roundtrip_maxStreams b v rest h
+  | dataBlocked v => exact frame_roundtrip_dataBlocked v rest h
+  | streamDataBlocked a b => exact frame_roundtrip_streamDataBlocked a b rest h
+  | streamsBlocked b v => exact frame_roundtrip_streamsBlocked b v rest h
+  | newConnectionId s r c t => exact frame_roundtrip_newConnectionId s r c t rest h
+  | retireConnectionId v => exact frame_roundtrip_retireConnectionId v rest h
+  | pathChallenge d => exact frame_roundtrip_pathChallenge d rest h
+  | pathResponse d => exact frame_roundtrip_pathResponse d rest h
+  | connectionClose c ft r => exact frame_roundtrip_connectionClose c ft r rest h
+  | handshakeDone => exact frame_roundtrip_handshakeDone rest
+  | datagram l d => exact frame_roundtrip_datagram l d rest h hr
+  | dcStatelessResetTokens t => exact frame_roundtrip_dcStatelessResetTokens t rest h
+  | mtuProbingComplete m => exact frame_roundtrip_mtuProbingComplete m rest h
+
+
+/-- non-vacuity: a STREAM frame with offset, length and trailing bytes; an ACK with three ranges and
+    ECN counts; a NEW_CONNECTION_ID at both cid-length bounds -/
+example : WF (.stream 4 70000 false true [1, 2, 3]) ∧ RestOk (.stream 4 70000 false true [1, 2, 3]) [9, 9] := by decide
+example : WF (.ack 25 [(90, 100), (70, 80), (0, 5)] (some (1, 2, 3))) := by decide
+example : WF (.newConnectionId 7 7 [1] (List.replicate 16 0)) ∧
+    WF (.newConnectionId 7 0 (List.replicate 20 5) (List.replicate 16 0)) := by decide
+example : WF (.maxStreams true maxStreamsBound) ∧ ¬ WF (.maxStreams true (maxStreamsBound + 1)) := by decide
+example : decodeFrame (encodeFrame (.ack 25 [(90, 100), (70, 80), (0, 5)] none) ++ [1]) =
+    .ok (.ack 25 [(90, 100), (70, 80), (0, 5)] none, [1]) := by rfl
+
+/-! ## announced size -/
+
+/-- the encoder writes exactly the number of bytes `encoding_size()` announces (every value, no
+    well-formedness needed) -/
+theorem frame_size (f : Frame) : (encodeFrame f).length = encodingSize f := by
+  cases f with
+  | ack d rs e =>
+    match rs, e with
+    | [], _ => simp [encodeFrame, encAck, encodingSize]
+    | (s, e') :: rs, none =>
+      simp [encodeFrame, encAck, encodingSize, encVar_length, encAckTail_length]; omega
+    | (s, e') :: rs, some (a, b, c) =>
+      simp [encodeFrame, encAck, encodingSize, encVar_length, encAckTail_length]; omega
+  | stream s o l f d =>
+    by_cases ho : o = 0 <;> cases l <;> simp [encodeFrame, encodingSize, encLenVar, encVar_length, ho] <;> omega
+  | connectionClose c ft r =>
+    cases ft <;> cases r <;> simp [encodeFrame, encodingSize, encLenVar, encVar_length] <;> omega
+  | datagram l d => cases l <;> simp [encodeFrame, encodingSize, encLenVar, encVar_length] <;> omega
+  | mtuProbingComplete m => simp [encodeFrame, encodingSize, encVar_length, beBytes]
+  | _ => simp [encodeFrame, encodingSize, encLenVar, encVar_length] <;> omega
+
+
+/-! ## the guards of `WF` are exact: every excluded point is rejected (or normalised) by the decoder -/
+
+/-- `Padding { length: 0 }` encodes to nothing at all -/
+theorem padding_zero_vanishes (rest : List Nat) :
+    decodeFrame (encodeFrame (.padding 0) ++ rest) = decodeFrame rest := by
+  simp [encodeFrame]
+
+theorem newToken_empty_rejected (rest : List Nat) :
+    decodeFrame (encodeFrame (.newToken []) ++ rest) = .error .emptyToken := by
+  simp [encodeFrame, decodeFrame, decNewToken, encLenVar, encVar_zero, decSliceVar_zero]
+
+theorem maxStreams_rejected (bidi : Bool) (v : Nat) (rest : List Nat) (hv : V v) (h : maxStreamsBound < v) :
+    decodeFrame (encodeFrame (.maxStreams bidi v) ++ rest) = .error .maxStreams := by
+  cases bidi <;> simp [encodeFrame, decodeFrame, decStreamLimit, decVar_enc, hv, Nat.not_le.mpr h]
+
+theorem streamsBlocked_rejected (bidi : Bool) (v : Nat) (rest : List Nat) (hv : V v) (h : maxStreamsBound < v) :
+    decodeFrame (encodeFrame (.streamsBlocked bidi v) ++ rest) = .error .maxStreams := by
+  cases bidi <;> simp [encodeFrame, decodeFrame, decStreamLimit, decVar_enc, hv, Nat.not_le.mpr h]
+
+theorem newConnectionId_retire_rejected (seq rpt : Nat) (cid tok rest : List Nat) (h1 : V seq) (h2 : V rpt)
+    (h : seq < rpt) :
+    decodeFrame (encodeFrame (.newConnectionId seq rpt cid tok) ++ rest) = .error .retirePriorTo := by
+  simp [encodeFrame, decodeFrame, decNewConnectionId, decVar_enc, h1, h2, h]
+
+theorem newConnectionId_cidLen_rejected (seq rpt : Nat) (cid tok rest : List Nat) (h1 : V seq)
+    (h2 : rpt ≤ seq) (h : cid.length < cidLenMin ∨ cidLenMax < cid.length) :
+    decodeFrame (encodeFrame (.newConnectionId seq rpt cid tok) ++ rest) = .error .cidLen := by
+  have hr : V rpt := Nat.le_trans h2 h1
+  simp [encodeFrame, decodeFrame, decNewConnectionId, decVar_enc, decU8_cons, h1, hr, Nat.not_lt.mpr h2, h]
+
+/-- `reason: Some(&[])` is encoded like `None` and decodes to `None` -/
+theorem connectionClose_empty_reason_normalised (code : Nat) (ft : Option Nat) (rest : List Nat)
+    (h1 : V code) (h2 : OptAll V ft) :
+    decodeFrame (encodeFrame (.connectionClose code ft (some [])) ++ rest)
+      = .ok (.connectionClose code ft none, rest) := by
+  cases ft <;> simp [OptAll] at h2 <;>
+    simp [encodeFrame, decodeFrame, decConnectionClose, decVar_enc, encLenVar, encVar_zero, decSliceVar_zero, h1, h2]
+
+theorem dcTokens_empty_rejected (toks rest : List Nat) (h : toks.length < resetTokenLen) :
+    decodeFrame (encodeFrame (.dcStatelessResetTokens toks) ++ rest) = .error .dcZero := by
+  simp only [encodeFrame, List.append_assoc, decodeFrame_dcTag]
+  have hv : V dcTag := by decide
+  have h0 : toks.length / resetTokenLen = 0 := Nat.div_eq_of_lt h
+  unfold handleExtension
+  rw [decVar_enc _ _ hv, h0]
+  simp only [if_true, decDcTokens]
+  rw [decVar_enc _ _ (by decide)]
+  simp
+
+theorem dcTokens_tooMany_rejected (toks rest : List Nat) (hv' : V (toks.length / resetTokenLen))
+    (h : dcMaxCount < toks.length / resetTokenLen) :
+    decodeFrame (encodeFrame (.dcStatelessResetTokens toks) ++ rest) = .error .dcTooMany := by
+  simp only [encodeFrame, List.append_assoc, decodeFrame_dcTag]
+  have hv : V dcTag := by decide
+  unfold handleExtension
+  rw [decVar_enc _ _ hv]
+  simp only [if_true, decDcTokens]
+  rw [decVar_enc _ _ hv']
+  simp only []
+  rw [if_neg (by simp [dcMaxCount] at h; omega), if_pos h]
+
+/-- decode ∘ encode is the identity on values, encode ∘ decode is NOT the identity on bytes:
+    a STREAM frame with the OFF bit and offset 0 is re-encoded without the offset field -/
+theorem stream_reencode_not_identity :
+    decodeFrame [0x0c, 1, 0] = .ok (.stream 1 0 true false [], []) ∧
+    encodeFrame (.stream 1 0 true false []) = [0x08, 1] := ⟨by rfl, by decide⟩
+
+/-! ## totality: progress and termination of the frame-sequence loop -/
+
+/-- every decoded frame consumes at least one byte -/
+theorem frames_decode_progress {b r : List Nat} {f : Frame} (h : decodeFrame b = .ok (f, r)) :
+    r.length < b.length := decodeFrame_progress h
+
+/-- the ACK range loop: `n` calls of `AckRangesIter::next` either fail or consume at least `n`
+    bytes and yield exactly `n` ranges (so a huge ACK Range Count cannot make the loop run long) -/
+theorem ackRanges_terminates (n largest : Nat) (buf : List Nat) {rs : List (Nat × Nat)} {r : List Nat}
+    (h : ackIter n largest buf = some (rs, r)) : r.length + n ≤ buf.length ∧ rs.length = n :=
+  ackIter_len n largest buf h
+
+/-- the fuel (= payload length) of the executable loop never runs out: it computes exactly the
+    well-founded loop `decodeFramesWF`, whose termination proof is `frames_decode_progress` -/
+theorem decodeFrames_fuel_sufficient (b : List Nat) : decodeFrames b = some (decodeFramesWF b) :=
+  decodeFramesFuel_eq_wf b.length b (Nat.le_refl _)
+
+/-- decoding a payload always terminates with a list of frames or an error -/
+theorem decodeFrames_total (b : List Nat) : ∃ res, decodeFrames b = some res :=
+  ⟨_, decodeFrames_fuel_sufficient b⟩
+
+/-- success means the whole payload was consumed, frame by frame -/
+theorem decodeFrames_ok_iff (b : List Nat) (fs : List Frame) :
+    decodeFrames b = some (.ok fs) ↔ Segments b fs := by
+  rw [decodeFrames_fuel_sufficient]
+  simp only [Option.some.injEq]
+  exact decodeFramesWF_ok_iff b fs
+
 end Quic.Proofs.C05
